@@ -160,6 +160,7 @@ BLOCKS = {
     "GET_EYE": (lambda p: D.GET_EYE(p.e, 64), True, False),
     "SAMPLER": (lambda p: D.SAMPLER(p.e, gv.sps // 2), False, False),
     "FBG": (quiet(lambda p: D.FBG(p.x1[:256] if len(p.x1) >= 256 else p.x1, fc=gv.f0, vdneff=1e-4, kL=2.0, print_params=False, retH=True)), False, False),
+    "FBG_fixed": (quiet(lambda p: D.FBG(p.x1[:256] if len(p.x1) >= 256 else p.x1, fc=193.4e12, vdneff=1e-4, kL=2.0, print_params=False, retH=True)), False, False),
     "PRBS": (lambda p: D.PRBS(9, 100, 77, True), False, False),
     "ook.DSP": (lambda p: OOK.DSP(p.e), True, False),
     "ook.THRESHOLD_EST": (lambda p: OOK.THRESHOLD_EST(p.eye), False, False),
@@ -181,7 +182,7 @@ BLOCKS = {
     "utils": (lambda p: (U.db(p.ua ** 2 + 1), U.Q(p.ua), U.dec2bin(37, 8), U.str2array("1 2;3 4"), U.shortest_int(p.ua, 50), U.rcos(p.ua, 0.5, 1.0), U.si(gv.fs, "Hz")), False, False),
     "typing": (lambda p: (p.x2("w", True), p.e[3:17:2], p.x1 + p.x1, p.e * 2.0, p.e > 0.5, p.x2.power(), p.e.w(True), p.x1.copy()), False, False),
 }
-SLOW = {"GET_EYE", "ook.DSP", "FBG", "FIBER_nl"}
+SLOW = {"GET_EYE", "ook.DSP", "FBG", "FBG_fixed", "FIBER_nl"}
 MIN_SPS = {"DAC_gauss": 2, "GET_EYE": 4, "ook.DSP": 4, "lab.GET_EYE_v2": 4}
 EVEN_SPS = {"lab.GET_EYE_v2"}      # its +-5% window is centred on a sample only for even sps (otherwise it holds no sample at all)   # documented / structural domain of the block (C05: Gaussian DAC for sps >= 2; eye needs samples per slot)
 BLOCK_NAMES = sorted(BLOCKS)
@@ -305,6 +306,8 @@ class Interp:
         name = s["block"]
         if gv.sps < MIN_SPS.get(name, 1) or (name in EVEN_SPS and gv.sps % 2):
             name = "DAC_nrz"
+        if name == "FBG_fixed" and abs(gv.f0 - 193.4e12) > 0.2 * gv.fs:
+            name = "FBG"                  # a grating centred outside the simulated band is not a meaningful call
         fn, stochastic, rng_sensitive = BLOCKS[name]
         p = self.pool(s["pool"])
         before = gv_snapshot()
@@ -337,6 +340,7 @@ class Interp:
         if key in self.cache:
             check(self.cache[key] == dg, "result-depends-on-call-history", f"{name}: output differs from an earlier identical call")
         self.cache[key] = dg
+        self.last = (name, dg)
         self.stats["blocks"].add(name)
         if self.stats["after_clean"]:
             self.stats["clean_then_call"] += 1
@@ -375,6 +379,81 @@ s_clean = st.just({"op": "clean"})
 fast_blocks = [b for b in BLOCK_NAMES if b not in SLOW]
 s_call = st.fixed_dictionaries({"op": st.just("call"), "block": st.one_of(st.sampled_from(fast_blocks), st.sampled_from(fast_blocks), st.sampled_from(BLOCK_NAMES)),
                                 "pool": st.integers(0, 2), "seed": st.integers(0, 50)})
+
+
+
+# --------------------------------------------------------------------------------------------------
+# history-free oracle: the same call evaluated in a FRESH interpreter that only saw the configuration steps
+
+import json as _json
+import os as _os
+import subprocess as _sp
+import sys as _sys
+
+CHANGES = ["wavelength", "wavelength-near", "wavelength-near", "N", "sps-same-fs", "R", "custom", "none", "clean-reconfigure"]
+
+
+@st.composite
+def s_fresh(draw):
+    a = draw(s_conf)
+    a = dict(a, form="sps_R", float_sps=False)
+    how = draw(st.sampled_from(CHANGES))
+    b = dict(a, custom=None)
+    if how == "wavelength":
+        b["wavelength"] = draw(st.floats(1260e-9, 1650e-9))
+    elif how == "wavelength-near":
+        a["wavelength"] = draw(st.sampled_from([None, 1550e-9, 1549.9e-9]))
+        b["wavelength"] = draw(st.sampled_from([1550.1e-9, 1550.3e-9, 1549.5e-9]))
+    elif how == "N":
+        b["N"] = draw(st.integers(1, 64))
+    elif how == "sps-same-fs":
+        k = draw(st.sampled_from([2, 3, 4]))
+        a["sps"] = a["sps"] * k if a["sps"] * k <= 64 else a["sps"]
+        b = dict(a, custom=None, sps=max(1, a["sps"] // k), R=a["R"] * (a["sps"] / max(1, a["sps"] // k)) if a["sps"] % k == 0 else a["R"])
+    elif how == "R":
+        b["R"] = draw(s_R)
+    elif how == "custom":
+        b["custom"] = {"alpha": draw(st.floats(-1, 1, allow_nan=False))}
+    blk = draw(st.one_of(st.sampled_from(BLOCK_NAMES), st.sampled_from(["FBG_fixed", "FIBER_nl", "DM", "FIBER_lin", "LPF", "BPF", "EDFA", "PD", "LASER", "DAC_gauss", "typing", "utils.spectral", "GET_EYE"])))
+    if how == "wavelength-near":
+        # a band wide enough to hold a fixed 193.4 THz grating under every one of these carriers; blocks whose result depends on gv.f0
+        a["R"], a["sps"], b["R"], b["sps"] = 25e9, 16, 25e9, 16
+        blk = draw(st.sampled_from(["FBG_fixed", "FBG_fixed", "EDFA", "FBG", "utils.spectral", "PD"]))
+    call = {"op": "call", "block": blk, "pool": draw(st.integers(0, 2)), "seed": draw(st.integers(0, 50))}
+    steps = [a, call] + ([{"op": "clean"}] if how == "clean-reconfigure" else []) + [b, dict(call)]
+    return {"steps": steps, "how": how}
+
+
+def _run_steps(steps):
+    it = Interp()
+    try:
+        for s_ in steps:
+            it.apply(s_)
+        return it
+    finally:
+        gv.clean()
+
+
+def fresh_digest(steps):
+    """digest of the LAST call of `steps`, computed by a new interpreter that executes only the non-call steps before it"""
+    last = max(i for i, s_ in enumerate(steps) if s_["op"] == "call")
+    only = [s_ for s_ in steps[:last] if s_["op"] != "call"] + [steps[last]]
+    here = _os.path.dirname(_os.path.dirname(_os.path.dirname(_os.path.abspath(__file__))))
+    p = _sp.run([_sys.executable, "-m", "vf.props.c14"], input=_json.dumps(only), cwd=here, env=dict(_os.environ), capture_output=True, text=True, timeout=900)
+    if p.returncode != 0 or not p.stdout.strip():
+        raise RuntimeError("fresh interpreter failed: " + p.stderr[-400:])
+    return _json.loads(p.stdout.strip().splitlines()[-1])
+
+
+def e_fresh(c):
+    it = _run_steps(c["steps"])
+    name, dg = it.last
+    ref = fresh_digest(c["steps"])
+    check(ref["block"] == name, "harness-mismatch", f"{ref['block']} vs {name}")
+    check(ref["digest"] == dg, "result-depends-on-call-history",
+          f"{name} after [{c['how']}]: output differs from the same call made in a fresh interpreter that only executed the configuration steps")
+    info = it.info()
+    return {"nontrivial": True, "classes": ["chg:" + c["how"], "blk:" + name], "weight": 1}
 
 
 def machine(ctx):
@@ -427,4 +506,13 @@ def machine(ctx):
 
 
 PARTS = [Part("history", eval_history, kind="machine", machine=machine, quick=120, thorough=1200, shards=16, quick_shards=8, steps_quick=30, steps_thorough=60,
-              rule="see RULE")]
+              rule="see RULE"),
+         Part("fresh", e_fresh, s_fresh(), quick=8, thorough=80, shards=16, quick_shards=8, shrink=False,
+              rule="configure A, call, change ONE thing (wavelength / N / sps at the same fs / R / custom / clean+reconfigure / nothing), call again: the second "
+                   "result is bit-identical to the same call in a fresh interpreter that only executed the configuration steps (history-free oracle)")]
+
+
+if __name__ == "__main__":
+    _steps = _json.loads(_sys.stdin.read())
+    _it = _run_steps(_steps)
+    print(_json.dumps({"block": _it.last[0], "digest": _it.last[1]}))
